@@ -63,6 +63,7 @@ def values_of(vclass, rng):
         'lookalike_cdata': ['<![CDATA[' + tail + ']]> ]]> <!-- c -->', '<?pi x?>'],
         'lookalike_entity': ['&amp;lt; &#x41; &unknown; ' + tail],
         'long': ['L' * 6000 + tail],
+        'huge': ['photo' * 14000 + tail, 'H' * 20000],          # 90 000 characters in all (size limits of inflaters and parsers)
         'many': ['v%02d-%s' % (i, tail) for i in range(25)],
         'backslash': ['EXAMPLE\\nick' + tail, 'a\\\\b \\1 \\g<0>', 'C:\\temp\\new\\1st', 'cn=Smith\\, John'],
         'newline': ['line1\nline2 ' + tail + '\n\nline3\tTab'],      # CR is subject to XML line-end normalisation
